@@ -7,9 +7,12 @@ import (
 	"errors"
 	"fmt"
 	"io"
+	"net"
+	"os"
 	"strings"
 	"sync"
 	"sync/atomic"
+	"syscall"
 	"testing"
 	"time"
 
@@ -17,16 +20,17 @@ import (
 )
 
 type vfStubTransport struct {
-	mu       sync.Mutex
-	pings    []time.Time // start of every Ping
-	failAt   int         // 1-based index of the Ping that fails, 0 = never
-	gate     chan struct{} // when non-nil every Ping waits for a token
-	closes   int32
+	mu             sync.Mutex
+	pings          []time.Time   // start of every Ping
+	failAt         int           // 1-based index of the Ping that fails, 0 = never
+	failErr        error         // the error that Ping returns
+	gate           chan struct{} // when non-nil every Ping waits for a token
+	closes         int32
 	afterQuitPings int32
-	quitClosed int32
+	quitClosed     int32
 }
 
-func (s *vfStubTransport) Connect() (string, error)    { return "", nil }
+func (s *vfStubTransport) Connect() (string, error)     { return "", nil }
 func (s *vfStubTransport) DoesStartTLS() bool           { return false }
 func (s *vfStubTransport) StartTLS() error              { return nil }
 func (s *vfStubTransport) LogTraffic(io.Writer)         {}
@@ -53,6 +57,9 @@ func (s *vfStubTransport) Ping() error {
 		<-g
 	}
 	if s.failAt != 0 && n == s.failAt {
+		if s.failErr != nil {
+			return s.failErr
+		}
 		return errors.New("vf: keepalive write failed")
 	}
 	return nil
@@ -60,9 +67,31 @@ func (s *vfStubTransport) Ping() error {
 func (s *vfStubTransport) count() int { s.mu.Lock(); defer s.mu.Unlock(); return len(s.pings) }
 
 type vfC18Case struct {
-	Mode     string `json:"mode"` // cadence | fail | stop | e2e
+	Mode     string `json:"mode"` // cadence | fail | stop | e2e | clean-close
 	Interval int    `json:"interval_us"`
 	K        int    `json:"k"`
+	Err      string `json:"err,omitempty"` // fail: generic | timeout | eof | epipe
+}
+
+// vfTimeoutErr is a net.Error whose Timeout() is true (what a write deadline or a websocket ping deadline gives)
+type vfTimeoutErr struct{}
+
+func (vfTimeoutErr) Error() string   { return "vf: i/o timeout" }
+func (vfTimeoutErr) Timeout() bool   { return true }
+func (vfTimeoutErr) Temporary() bool { return true }
+
+func vfC18Err(kind string) error {
+	switch kind {
+	case "timeout":
+		return fmt.Errorf("failed to ping: %w", vfTimeoutErr{})
+	case "deadline":
+		return fmt.Errorf("failed to ping: %w", os.ErrDeadlineExceeded)
+	case "eof":
+		return io.EOF
+	case "epipe":
+		return &net.OpError{Op: "write", Net: "tcp", Err: syscall.EPIPE}
+	}
+	return errors.New("vf: keepalive write failed")
 }
 
 func vfC18Run(run *vfkit.Run, cs *vfC18Case) {
@@ -102,7 +131,7 @@ func vfC18Run(run *vfkit.Run, cs *vfC18Case) {
 		}
 		run.Count("pings_timed", int64(len(pings)))
 	case "fail":
-		st := &vfStubTransport{failAt: cs.K}
+		st := &vfStubTransport{failAt: cs.K, failErr: vfC18Err(cs.Err)}
 		quit := make(chan struct{})
 		done := make(chan struct{})
 		go func() { keepalive(st, iv, quit); close(done) }()
@@ -111,7 +140,7 @@ func vfC18Run(run *vfkit.Run, cs *vfC18Case) {
 		case <-time.After(time.Duration(200*cs.K)*iv + 10*time.Second):
 			close(quit)
 			if st.count() >= cs.K {
-				run.Violation("C18/failed-keepalive-ignored", fmt.Sprintf("ping #%d failed (%d pings so far) but the keepalive goroutine keeps running", cs.K, st.count()), cs)
+				run.Violation("C18/failed-keepalive-ignored:"+cs.Err, fmt.Sprintf("ping #%d failed with a %s error (%d pings so far) but the keepalive goroutine keeps running and never closed the connection", cs.K, cs.Err, st.count()), cs)
 			} else {
 				run.Inconclusive("fail-slow-machine")
 			}
@@ -168,6 +197,46 @@ func vfC18Run(run *vfkit.Run, cs *vfC18Case) {
 			return
 		}
 		run.Count("stop_points_checked", 1)
+	case "clean-close":
+		// the session ends with an orderly stream close (Disconnect answered by the server): the keepalive must stop too
+		peer := vfNewPeer(func(pc *vfPeerConn) {
+			if _, err := pc.Negotiate(&vfNeg{Bind: true, ExpectPresence: true}); err != nil {
+				return
+			}
+			for {
+				e, err := pc.Next()
+				if err != nil {
+					return
+				}
+				if e.Kind == "close" {
+					pc.Send("</stream:stream>")
+				}
+			}
+		})
+		defer peer.Stop()
+		// a long interval: a keepalive loop that was not told to stop will not even notice the closed socket for a
+		// minute, whereas a correct one is released the moment the receive loop returns
+		c, _, err := vfNewClient(vfClientOpt{Addr: peer.Addr(), Insecure: true, Keepalive: time.Minute}, nil)
+		if err != nil {
+			run.Inconclusive("newclient")
+			return
+		}
+		if err := c.Connect(); err != nil {
+			run.Inconclusive("connect")
+			return
+		}
+		time.Sleep(time.Duration(cs.K) * iv / 2)
+		c.Disconnect()
+		var left []string
+		if !vfWaitUntil(8*time.Second, func() bool { left = vfClientGoroutines(c); return len(left) == 0 }) {
+			what := "goroutine"
+			if strings.Contains(left[0], "keepalive(") {
+				what = "keepalive"
+			}
+			run.Violation("C18/keepalive-survives-clean-close:"+what, fmt.Sprintf("the session was closed in an orderly way (Disconnect returned), yet %d goroutines of this client are still running 8s later", len(left)), map[string]interface{}{"case": cs, "goroutines": left})
+			return
+		}
+		run.Count("clean_closes_checked", 1)
 	case "e2e":
 		var pcc *vfPeerConn
 		mark := 0
@@ -266,12 +335,13 @@ func TestVf_C18(t *testing.T) {
 	for _, iv := range intervals {
 		cases = append(cases, &vfC18Case{Mode: "cadence", Interval: iv, K: vfkit.Pick(20, 60)})
 		for k := 1; k <= 10; k++ {
-			cases = append(cases, &vfC18Case{Mode: "fail", Interval: iv, K: k})
+			cases = append(cases, &vfC18Case{Mode: "fail", Interval: iv, K: k, Err: []string{"generic", "timeout", "deadline", "eof", "epipe"}[k%5]})
 			cases = append(cases, &vfC18Case{Mode: "stop", Interval: iv, K: k - 1})
 		}
 	}
 	for i := 0; i < vfkit.Pick(4, 40); i++ {
 		cases = append(cases, &vfC18Case{Mode: "e2e", Interval: []int{5000, 10000, 20000, 40000}[i%4], K: 10})
+		cases = append(cases, &vfC18Case{Mode: "clean-close", Interval: []int{5000, 10000, 20000, 40000}[i%4], K: 4})
 	}
 	run.Exhaustive(true)
 	var wg sync.WaitGroup
